@@ -1087,8 +1087,12 @@ class Tripwire:
             setattr(mod, name, orig)
 
 
-def _c07_engine(mods, work, case, integrator=None):
-    """build one engine for the C07 runs (ASE / TurtleMD with the requested integrator) for `case`"""
+def _c07_engine(mods, work, case, integrator=None, spell=None):
+    """build one engine for the C07 runs (ASE / TurtleMD with the requested integrator) for `case`;
+    `spell`: how the integrator's class name is spelled in the settings (None = as in the examples,
+    "lower", "upper", "swap" = other capitalisations the engines accept: they lower-case the name)"""
+    def sp(name):
+        return {None: name, "lower": name.lower(), "upper": name.upper(), "swap": name.swapcase()}[spell]
     import contextlib
     import io
     import tomli
@@ -1099,7 +1103,7 @@ def _c07_engine(mods, work, case, integrator=None):
         if eng == "ase":
             cfg = tomli.loads((EX / "ase/H2/infretis0.toml").read_text())
             cfg["engine"]["temperature"] = T
-            cfg["engine"]["integrator"] = integrator
+            cfg["engine"]["integrator"] = sp(integrator)
             cfg["engine"]["calculator_settings"]["module"] = str((EX / "ase/H2/H2-calc.py").resolve())
             e = mods["create_engine"](cfg)
         else:
@@ -1109,12 +1113,12 @@ def _c07_engine(mods, work, case, integrator=None):
             cfg["engine"]["particles"] = {"mass": masses_arg(case), "name": ["H"] * n,
                                           "pos": [[0.3 * i, 0.0, 0.0] for i in range(n)]}
             if integrator == "velocityverlet":
-                cfg["engine"]["integrator"] = {"class": "VelocityVerlet", "settings": {}}
+                cfg["engine"]["integrator"] = {"class": sp("VelocityVerlet"), "settings": {}}
             elif integrator == "langevinoverdamped":
-                cfg["engine"]["integrator"] = {"class": "LangevinOverdamped",
+                cfg["engine"]["integrator"] = {"class": sp("LangevinOverdamped"),
                                                "settings": {"gamma": 10, "beta": 1.0 / (TURTLE_KB * T)}}
             else:
-                cfg["engine"]["integrator"] = {"class": "LangevinInertia",
+                cfg["engine"]["integrator"] = {"class": sp("LangevinInertia"),
                                                "settings": {"gamma": 10, "beta": 1.0 / (TURTLE_KB * T)}}
             e = mods["create_engine"](cfg)
         return _finish_engine(e, work, eng)
@@ -1293,15 +1297,20 @@ def run_c07_engine_streams(ctx):
             for T in temps:
                 for zm in (False, True):
                     label = eng + ("" if integ is None else f"/{integ}")
+                    # spelling of the integrator name: every capitalisation the engine accepts must behave alike
+                    n_spelled = sum(v for k, v in ctx.hist.items() if k.startswith("c07_integrator_spelling:"))
+                    spell = None if integ is None else [None, "lower", "upper", "swap"][n_spelled % 4]
                     case = gen_case(ctx.rng, eng, 3, T, False, "plain")
                     seed_a, seed_b = ctx.rng.randrange(1 << 30), ctx.rng.randrange(1 << 30)
-                    rep = {"engine": eng, "integrator": integ, "T": T, "zero_momentum": zm, "rgen_seed_job1": seed_a,
+                    rep = {"engine": eng, "integrator": integ, "integrator_spelling": spell, "T": T,
+                           "zero_momentum": zm, "rgen_seed_job1": seed_a,
                            "rgen_seed_job2": seed_b, "case": {k: v for k, v in case.items() if not k.startswith("_")}}
                     try:
-                        e = _c07_engine(mods, work, case, integ)
+                        e = _c07_engine(mods, work, case, integ, spell)
                     except Exception as ex:  # noqa: BLE001
                         ctx.hit(f"c07_build_error:{label}:{err_kind(ex)}")
                         continue
+                    ctx.hit(f"c07_integrator_spelling:{spell}")
                     src = work / f"src_{eng}.{EXT[eng]}"
                     write_source(case, src)
                     gen_a, gen_b = LoggingGen(seed_a), LoggingGen(seed_b)
@@ -1319,7 +1328,7 @@ def run_c07_engine_streams(ctx):
                     check_job(label, eng, integ, "job 2 (same engine object)", job2, rep)
                     # ---- job 2 again, on a fresh engine object with a generator in B's initial state
                     try:
-                        e2 = _c07_engine(mods, work, case, integ)
+                        e2 = _c07_engine(mods, work, case, integ, spell)
                     except Exception as ex:  # noqa: BLE001
                         ctx.hit(f"c07_build_error:{label}:{err_kind(ex)}")
                         continue
@@ -1338,6 +1347,13 @@ def run_c07_engine_streams(ctx):
                         report(eng, f"{label}: the second job on a used engine object differs from the same job (same "
                                f"stream B) on a fresh engine object in {diffs}: the result is not a function of the "
                                "job's stream only", dict(rep, job="job 2", differs=diffs))
+                    # two (concurrent or successive) jobs with different streams: the seeds handed on differ
+                    s1 = [str(x) for x in job1["seeds_given"]] + [str(job1["lmp"].get("seed"))]
+                    s2 = [str(x) for x in job2["seeds_given"]] + [str(job2["lmp"].get("seed"))]
+                    if do_prop and seed_a != seed_b and eng in ("turtlemd", "lammps") and s1 == s2 \
+                            and any(x not in ("None", "absent") for x in s1):
+                        report(eng, f"{label}: two jobs with different engine streams handed the same seed(s) {s1} to the "
+                               "integrator / MD program", dict(rep, job="job 1 vs job 2", seeds=s1))
                     ctx.hit(f"c07_modify_velocities:{label}:draws_on_rgen={job1['mv_draws']},{job2['mv_draws']}")
                     if do_prop:
                         ctx.hit(f"c07_propagate:{label}:rgen_calls="
